@@ -101,6 +101,8 @@ class C08Run(object):
                 f.write(pre['text'])
             if pre.get('live'):
                 w.kernel.foreign.add(pre['live'])
+            if pre.get('eperm'):
+                w.kernel.foreign_eperm = set([pre['live']])
         self.pre = pre
 
         # capture the arbiters circusd.main() builds
@@ -359,7 +361,11 @@ class C08Run(object):
         if pre is not None and pre.get('live'):
             # another live circusd owns the pid file: refuse to run
             self.count(self.probes, 'pidfile_live_foreign')
-            if self.exit_code != 1 or k.spawns:
+            # (an uncaught exception out of main() - the EPERM of a process
+            # of another user is re-raised - ends the interpreter with 1)
+            refused = self.exit_code == 1 or (
+                pre.get('eperm') and self.exit_code == 'exception')
+            if not refused or k.spawns:
                 self.viol('started_despite_live_pidfile',
                           'pid file names live process %d: exit code %r, %d '
                           'workers spawned' % (pre['live'], self.exit_code,
@@ -493,7 +499,8 @@ class C08Run(object):
 
 
 PID_KINDS = ['absent', 'empty', 'blank', 'garbage', 'negative', 'zero',
-             'own', 'live', 'dead', 'huge', 'huge2', 'newline', 'float']
+             'own', 'live', 'live_other', 'dead', 'huge', 'huge2', 'newline',
+             'float']
 
 
 def gen_pidfile(rng):
@@ -502,12 +509,17 @@ def gen_pidfile(rng):
         return None
     text = {'empty': '', 'blank': ' \n', 'garbage': 'not-a-pid',
             'negative': '-5\n', 'zero': '0\n', 'own': '4242\n',
-            'live': '77\n', 'dead': '31337\n', 'huge': '2147483648\n',
+            'live': '77\n', 'live_other': '78\n', 'dead': '31337\n',
+            'huge': '2147483648\n',
             'huge2': '99999999999999999999\n', 'newline': '\n\n',
             'float': '12.5\n'}[kind]
     d = {'kind': kind, 'text': text}
     if kind == 'live':
         d['live'] = 77
+    if kind == 'live_other':
+        # alive and owned by another user: kill(pid, 0) says EPERM
+        d['live'] = 78
+        d['eperm'] = True
     return d
 
 
